@@ -273,7 +273,8 @@ def gen_ops(rng, n, weights=None, pool_uids=0):
     """Abstract operations; targets are indices resolved against the live tree at run time."""
     w = {"create_group": 3, "create_object": 5, "add_data": 7, "rename": 2, "flag": 2, "set_values": 3,
          "set_geometry": 2, "move": 3, "remove_ws": 3, "remove_parent": 2, "copy": 3, "pg_add": 3, "pg_remove": 1,
-         "reopen": 2, "gc": 1, "protect": 1, "retype": 1, "reattach": 1, "comment": 2, "visual": 1, "remove_all": 1}
+         "reopen": 2, "gc": 1, "protect": 1, "retype": 1, "reattach": 1, "comment": 2, "visual": 1, "remove_all": 1,
+         "detached_add": 1}
     w.update(weights or {})
     kinds = [k for k, c in w.items() for _ in range(c)]
     ops = []
@@ -494,8 +495,11 @@ class Session:
             e = self.pick(ents, op["a"], not_root)
             if e is None:
                 return
-            attr, key = [("visible", "Visible"), ("public", "Public"), ("allow_move", "Allow move"),
-                         ("allow_rename", "Allow rename"), ("partially_hidden", "Partially hidden")][op["b"] % 5]
+            flags = [("visible", "Visible"), ("public", "Public"), ("allow_move", "Allow move"),
+                     ("allow_rename", "Allow rename"), ("partially_hidden", "Partially hidden")]
+            if is_data(e) and not special(e):
+                flags += [("modifiable", "Modifiable"), ("modifiable", "Modifiable")]     # data may be locked against edits
+            attr, key = flags[op["b"] % len(flags)]
             val = not getattr(e, attr)
             setattr(e, attr, val)
             self.events.append(f"set {attr} of {self.uids.num(e.uid)} = {val}")
@@ -536,6 +540,10 @@ class Session:
             if e is None:
                 return
             vals = self.values("FLOAT", len(e.values), op["c"])
+            if op["b"] % 3 == 0:
+                # a third of the assignments are small corrections of the values the data set holds
+                cur = np.asarray(e.values, dtype=float)
+                vals = np.where(np.isnan(cur), cur, cur + 1e-9 * (1 + op["c"] % 5))
             e.values = vals
             self.events.append(f"set values of {self.uids.num(e.uid)}")
             self.record({"o": "setDset", "u": self.uids.num(e.uid), "key": "values", "tok": digest(e.values)}, "ok")
@@ -602,6 +610,24 @@ class Session:
             self.events.append(f"reattach {self.uids.num(e.uid)} under {self.uids.num(par.uid)}")
             self.record({"o": "move", "u": self.uids.num(e.uid), "parent": self.uids.num(par.uid)}, "ok")
             del par
+            return
+        if k == "detached_add":
+            # an object is taken out of its parent's children while the caller still holds it, then receives a new data set:
+            # the object stays detached (it is gone once the caller lets go of it), whatever is saved below it
+            o = self.pick(ents, op["a"], lambda x: is_obj(x) and x.allow_delete and getattr(x, "n_vertices", None)
+                          and all(getattr(c, "allow_delete", True) for c in x.children))
+            if o is None:
+                return
+            n_ = self.uids.num(o.uid)
+            sub = tree_uids(api_tree(self.uids, o))
+            par = o.parent
+            par.remove_children([o])
+            o.add_data({self.next_name("dd"): {"values": self.values("FLOAT", o.n_vertices, op["c"]), "association": "VERTEX"}})
+            del o, par, ents
+            gc.collect()
+            self.events.append(f"detached_add {n_}")
+            self.record({"o": "detach", "u": n_}, "ok")
+            self.check_removed(sub, "remove_parent")
             return
         if k == "remove_all":
             # the caller hands the object its own list of children: obj.remove_children(obj.children)
